@@ -13,6 +13,28 @@ ALLOWED_AXIOMS = {
 }
 
 PROPS = {
+    "C04": {
+        "n": {"quick": 400, "thorough": 10000},
+        "shards": 16,
+        "known_bitmask": True,
+        "trusted": [
+            "formatter model (Model/Formatter.v, Model/NumberFormat.v): FormatDocumentWithOptions, the alignment computations, formatPostingWithOpts, writeAmountWithSign, formatAmountQuantity, trimTrailingSpacesEdits, extractCommodityFormats, Workspace.GetCommodityFormats, ParseNumberFormat, FormatNumber, and the decimal printing of shopspring/decimal (Round, StringFixed, String) -- composed with the lexer and parser models, so the model's edits are computed from the TEXT and the configuration alone",
+            "diagnostics before / after formatting are the real server's (observed, not modelled)",
+            "reference edit applier: Spec/FormatSpec.v apply_edits (single-line edits, UTF-16 columns, CR before LF belongs to the line ending); the harness's byte-offset applier is compared with it on every case",
+        ],
+        "assumptions": ["exponents of generated amounts are small (huge exponents are C06's finding)", "the included file is formats.journal next to the root journal; other workspace shapes are C10/C18's subject"],
+        "explanation": "theorems on the formatter model (Props/C04.v); tie: model edits = real edits on both rounds, reference applier = harness applier, parse errors; oracle: same meaning after re-parsing, same diagnostics, frame of non-posting lines, unread text kept",
+    },
+    "C05": {
+        "n": {"quick": 400, "thorough": 10000},
+        "shards": 16,
+        "known_bitmask": True,
+        "trusted": [
+            "same models and applier as C04",
+        ],
+        "assumptions": ["same input space as C04"],
+        "explanation": "theorems on the formatter model (Props/C05.v); tie as C04; oracle: both edit lists well-formed, second formatting changes nothing, rewritten posting lines aligned",
+    },
     "C08": {
         "n": {"quick": 600, "thorough": 15000},
         "shards": 16,
